@@ -265,6 +265,38 @@ class Program:
         for m in self.modules.values():
             for c in m.classes.values():
                 self.classes.setdefault(c.name, c)
+        self.send_helpers = {}
+        self._normalise_send_helpers()
+
+    def _normalise_send_helpers(self):
+        """A module-level function of client/base.py that wraps `<socket parameter>.sendall(<data parameter>)` is a send
+        helper: its call sites are read as the send they stand for (`_sendall(self.sock, cmd)` as `self.sock.sendall(cmd)`),
+        so that every rule that anchors on the send keeps its anchor.  That the helper is no more than that - one send
+        of the data it was given, every failure passed on, no second attempt - is an obligation of its own (C01.R7)."""
+        mod = self.modules.get(PKG + "/client/base.py")
+        if mod is None:
+            return
+        for f in mod.functions.values():
+            params = [a.arg for a in f.node.args.posonlyargs + f.node.args.args]
+            sends = [n for n in ast.walk(f.node) if isinstance(n, ast.Call) and isinstance(n.func, ast.Attribute) and n.func.attr == "sendall" and isinstance(n.func.value, ast.Name) and n.func.value.id in params and len(n.args) == 1 and isinstance(n.args[0], ast.Name) and n.args[0].id in params]
+            if sends and all((s_.func.value.id, s_.args[0].id) == (sends[0].func.value.id, sends[0].args[0].id) for s_ in sends):
+                self.send_helpers[f.name] = (params.index(sends[0].func.value.id), params.index(sends[0].args[0].id))
+        if not self.send_helpers:
+            return
+        for g in list(mod.functions.values()) + [m_ for c_ in mod.classes.values() for m_ in c_.methods.values()]:
+            if g.name in self.send_helpers:
+                continue
+            for n in ast.walk(g.node):
+                if isinstance(n, ast.Call) and isinstance(n.func, ast.Name) and n.func.id in self.send_helpers and not n.keywords and not any(isinstance(a, ast.Starred) for a in n.args):
+                    si, di = self.send_helpers[n.func.id]
+                    if max(si, di) < len(n.args):
+                        sock, data = n.args[si], n.args[di]
+                        new_func = ast.copy_location(ast.Attribute(value=sock, attr="sendall", ctx=ast.Load()), n.func)
+                        new_func._parent = n
+                        sock._parent = new_func
+                        n._send_helper = n.func.id
+                        n.func = new_func
+                        n.args = [data]
 
     # ---- lookup helpers -------------------------------------------------
     def module(self, rel):
